@@ -83,4 +83,73 @@ theorem be32 (a b c d : UInt8) :
   simp
   omega
 
+theorem be48 (a b c d e f : UInt8) :
+    (((((((a).toUInt64 <<< (40 : UInt64)) ||| ((b).toUInt64 <<< (32 : UInt64))) ||| ((c).toUInt64 <<< (24 : UInt64))) ||| ((d).toUInt64 <<< (16 : UInt64))) ||| ((e).toUInt64 <<< (8 : UInt64))) ||| ((f).toUInt64)).toNat =
+      beVal [a.toNat, b.toNat, c.toNat, d.toNat, e.toNat, f.toNat] := by
+  have ha := a.toNat_lt; have hb := b.toNat_lt; have hc := c.toNat_lt; have hd := d.toNat_lt; have he := e.toNat_lt; have hf := f.toNat_lt
+  simp only [UInt64.toNat_or, UInt64.toNat_shiftLeft, UInt8.toNat_toUInt64, beVal]
+  have e40 : (40 : UInt64).toNat % 64 = 40 := rfl
+  have e32 : (32 : UInt64).toNat % 64 = 32 := rfl
+  have e24 : (24 : UInt64).toNat % 64 = 24 := rfl
+  have e16 : (16 : UInt64).toNat % 64 = 16 := rfl
+  have e8 : (8 : UInt64).toNat % 64 = 8 := rfl
+  rw [e40, e32, e24, e16, e8]
+  simp only [Nat.shiftLeft_eq, Nat.reducePow] at ha hb hc hd he hf ⊢
+  have ma : a.toNat * 1099511627776 % 18446744073709551616 = a.toNat * 1099511627776 := Nat.mod_eq_of_lt (by omega)
+  have mb : b.toNat * 4294967296 % 18446744073709551616 = b.toNat * 4294967296 := Nat.mod_eq_of_lt (by omega)
+  have mc : c.toNat * 16777216 % 18446744073709551616 = c.toNat * 16777216 := Nat.mod_eq_of_lt (by omega)
+  have md : d.toNat * 65536 % 18446744073709551616 = d.toNat * 65536 := Nat.mod_eq_of_lt (by omega)
+  have me : e.toNat * 256 % 18446744073709551616 = e.toNat * 256 := Nat.mod_eq_of_lt (by omega)
+  rw [ma, mb, mc, md, me]
+  rw [or_eq_add (a.toNat * 1099511627776) (b.toNat * 4294967296) 40 (by omega) (by omega),
+    or_eq_add (a.toNat * 1099511627776 + b.toNat * 4294967296) (c.toNat * 16777216) 32 (by omega) (by omega),
+    or_eq_add (a.toNat * 1099511627776 + b.toNat * 4294967296 + c.toNat * 16777216) (d.toNat * 65536) 24 (by omega) (by omega),
+    or_eq_add (a.toNat * 1099511627776 + b.toNat * 4294967296 + c.toNat * 16777216 + d.toNat * 65536) (e.toNat * 256) 16 (by omega) (by omega),
+    or_eq_add (a.toNat * 1099511627776 + b.toNat * 4294967296 + c.toNat * 16777216 + d.toNat * 65536 + e.toNat * 256) (f.toNat) 8 (by omega) (by omega)]
+  simp
+  omega
+
+theorem be64 (a b c d e f g h : UInt8) :
+    (((((((((a).toUInt64 <<< (56 : UInt64)) ||| ((b).toUInt64 <<< (48 : UInt64))) ||| ((c).toUInt64 <<< (40 : UInt64))) ||| ((d).toUInt64 <<< (32 : UInt64))) ||| ((e).toUInt64 <<< (24 : UInt64))) ||| ((f).toUInt64 <<< (16 : UInt64))) ||| ((g).toUInt64 <<< (8 : UInt64))) ||| ((h).toUInt64)).toNat =
+      beVal [a.toNat, b.toNat, c.toNat, d.toNat, e.toNat, f.toNat, g.toNat, h.toNat] := by
+  have ha := a.toNat_lt; have hb := b.toNat_lt; have hc := c.toNat_lt; have hd := d.toNat_lt; have he := e.toNat_lt; have hf := f.toNat_lt; have hg := g.toNat_lt; have hh := h.toNat_lt
+  simp only [UInt64.toNat_or, UInt64.toNat_shiftLeft, UInt8.toNat_toUInt64, beVal]
+  have e56 : (56 : UInt64).toNat % 64 = 56 := rfl
+  have e48 : (48 : UInt64).toNat % 64 = 48 := rfl
+  have e40 : (40 : UInt64).toNat % 64 = 40 := rfl
+  have e32 : (32 : UInt64).toNat % 64 = 32 := rfl
+  have e24 : (24 : UInt64).toNat % 64 = 24 := rfl
+  have e16 : (16 : UInt64).toNat % 64 = 16 := rfl
+  have e8 : (8 : UInt64).toNat % 64 = 8 := rfl
+  rw [e56, e48, e40, e32, e24, e16, e8]
+  simp only [Nat.shiftLeft_eq, Nat.reducePow] at ha hb hc hd he hf hg hh ⊢
+  have ma : a.toNat * 72057594037927936 % 18446744073709551616 = a.toNat * 72057594037927936 := Nat.mod_eq_of_lt (by omega)
+  have mb : b.toNat * 281474976710656 % 18446744073709551616 = b.toNat * 281474976710656 := Nat.mod_eq_of_lt (by omega)
+  have mc : c.toNat * 1099511627776 % 18446744073709551616 = c.toNat * 1099511627776 := Nat.mod_eq_of_lt (by omega)
+  have md : d.toNat * 4294967296 % 18446744073709551616 = d.toNat * 4294967296 := Nat.mod_eq_of_lt (by omega)
+  have me : e.toNat * 16777216 % 18446744073709551616 = e.toNat * 16777216 := Nat.mod_eq_of_lt (by omega)
+  have mf : f.toNat * 65536 % 18446744073709551616 = f.toNat * 65536 := Nat.mod_eq_of_lt (by omega)
+  have mg : g.toNat * 256 % 18446744073709551616 = g.toNat * 256 := Nat.mod_eq_of_lt (by omega)
+  rw [ma, mb, mc, md, me, mf, mg]
+  rw [or_eq_add (a.toNat * 72057594037927936) (b.toNat * 281474976710656) 56 (by omega) (by omega),
+    or_eq_add (a.toNat * 72057594037927936 + b.toNat * 281474976710656) (c.toNat * 1099511627776) 48 (by omega) (by omega),
+    or_eq_add (a.toNat * 72057594037927936 + b.toNat * 281474976710656 + c.toNat * 1099511627776) (d.toNat * 4294967296) 40 (by omega) (by omega),
+    or_eq_add (a.toNat * 72057594037927936 + b.toNat * 281474976710656 + c.toNat * 1099511627776 + d.toNat * 4294967296) (e.toNat * 16777216) 32 (by omega) (by omega),
+    or_eq_add (a.toNat * 72057594037927936 + b.toNat * 281474976710656 + c.toNat * 1099511627776 + d.toNat * 4294967296 + e.toNat * 16777216) (f.toNat * 65536) 24 (by omega) (by omega),
+    or_eq_add (a.toNat * 72057594037927936 + b.toNat * 281474976710656 + c.toNat * 1099511627776 + d.toNat * 4294967296 + e.toNat * 16777216 + f.toNat * 65536) (g.toNat * 256) 16 (by omega) (by omega),
+    or_eq_add (a.toNat * 72057594037927936 + b.toNat * 281474976710656 + c.toNat * 1099511627776 + d.toNat * 4294967296 + e.toNat * 16777216 + f.toNat * 65536 + g.toNat * 256) (h.toNat) 8 (by omega) (by omega)]
+  simp
+  omega
+
+/-! ### `byte(x >> 8k)` on uint64 with literal shift counts -/
+
+theorem u64_b7 (x : UInt64) : ((x >>> (56 : UInt64)).toUInt8).toNat = x.toNat / 256 ^ 7 % 256 := by simp [Nat.shiftRight_eq_div_pow]
+theorem u64_b6 (x : UInt64) : ((x >>> (48 : UInt64)).toUInt8).toNat = x.toNat / 256 ^ 6 % 256 := by simp [Nat.shiftRight_eq_div_pow]
+theorem u64_b5 (x : UInt64) : ((x >>> (40 : UInt64)).toUInt8).toNat = x.toNat / 256 ^ 5 % 256 := by simp [Nat.shiftRight_eq_div_pow]
+theorem u64_b4 (x : UInt64) : ((x >>> (32 : UInt64)).toUInt8).toNat = x.toNat / 256 ^ 4 % 256 := by simp [Nat.shiftRight_eq_div_pow]
+theorem u64_b3 (x : UInt64) : ((x >>> (24 : UInt64)).toUInt8).toNat = x.toNat / 256 ^ 3 % 256 := by simp [Nat.shiftRight_eq_div_pow]
+theorem u64_b2 (x : UInt64) : ((x >>> (16 : UInt64)).toUInt8).toNat = x.toNat / 256 ^ 2 % 256 := by simp [Nat.shiftRight_eq_div_pow]
+theorem u64_b1 (x : UInt64) : ((x >>> (8 : UInt64)).toUInt8).toNat = x.toNat / 256 ^ 1 % 256 := by simp [Nat.shiftRight_eq_div_pow]
+theorem u64_b0 (x : UInt64) : ((x).toUInt8).toNat = x.toNat / 256 ^ 0 % 256 := by simp
+
 end ScionTime.LeafBytes
